@@ -179,7 +179,11 @@ func genHistCases(tier string, emit func(op string, fields ...string)) {
 			src = pick(compileCorpus)
 		}
 		g := pick([]int{2, 4, 8, 16, 64})
-		emit("HIST", hexs(src), fmtParams(ps), fmt.Sprint(g), fmt.Sprint(1+rng.Intn(6)))
+		pf := fmtParams(ps)
+		if ps == nil && rng.Intn(2) == 0 {
+			pf = "0"
+		}
+		emit("HIST", hexs(src), pf, fmt.Sprint(g), fmt.Sprint(1+rng.Intn(6)))
 	}
 	for i := 0; i < n/4+4; i++ {
 		ps := pick(paramSets)
